@@ -19,7 +19,8 @@ type Env struct {
 	Prop     string
 	Tier     string
 	Seed     int64
-	VerifDir string // /verif (evidence/, replay/, known_findings.json)
+	VerifDir string // /verif (known_findings.json; evidence/ and replay/ unless OutDir is set)
+	OutDir   string // where evidence/ and replay/ are written (self-tests against seeded changes point it at a scratch directory)
 	WorkDir  string // scratch directory for journals and batch results (removed by run.sh)
 	Self     string // path of this executable
 	Workers  int
@@ -442,9 +443,9 @@ func Finish(m *Monitor, env *Env, sum *Summary, wall time.Duration) int {
 		"wall_s":      wall.Seconds(),
 		"violations":  sum.NViolations,
 	}
-	os.MkdirAll(filepath.Join(env.VerifDir, "evidence"), 0o755)
+	os.MkdirAll(filepath.Join(env.OutDir, "evidence"), 0o755)
 	js, _ := json.MarshalIndent(ev, "", " ")
-	if err := os.WriteFile(filepath.Join(env.VerifDir, "evidence", m.ID+".json"), js, 0o644); err != nil {
+	if err := os.WriteFile(filepath.Join(env.OutDir, "evidence", m.ID+".json"), js, 0o644); err != nil {
 		fmt.Fprintln(os.Stderr, "cannot write evidence:", err)
 		return 2
 	}
@@ -472,7 +473,7 @@ func Finish(m *Monitor, env *Env, sum *Summary, wall time.Duration) int {
 		}
 	}
 	if unlistedCount > 0 {
-		os.MkdirAll(filepath.Join(env.VerifDir, "replay"), 0o755)
+		os.MkdirAll(filepath.Join(env.OutDir, "replay"), 0o755)
 		printed := map[string]int{}
 		showAll := os.Getenv("VERIF_SHOW_ALL") != ""
 		for i, w := range unlisted {
@@ -483,14 +484,14 @@ func Finish(m *Monitor, env *Env, sum *Summary, wall time.Duration) int {
 				continue
 			}
 			printed[w.Class]++
-			path := filepath.Join(env.VerifDir, "replay", fmt.Sprintf("%s-%s-%d-%d.json", m.ID, env.Tier, env.Seed, w.Index))
+			path := filepath.Join(env.OutDir, "replay", fmt.Sprintf("%s-%s-%d-%d.json", m.ID, env.Tier, env.Seed, w.Index))
 			wj, _ := json.MarshalIndent(w, "", " ")
 			os.WriteFile(path, wj, 0o644)
 			fmt.Printf("  violation class=%s case=%d: %s\n", w.Class, w.Index, w.Reason)
 			fmt.Printf("VIOLATION property=%s replay=%s\n", m.ID, path)
 		}
 		if len(printed) == 0 { // cannot happen while witnesses are kept per class; never exit 1 without the line
-			fmt.Printf("VIOLATION property=%s replay=%s\n", m.ID, filepath.Join(env.VerifDir, "evidence", m.ID+".json"))
+			fmt.Printf("VIOLATION property=%s replay=%s\n", m.ID, filepath.Join(env.OutDir, "evidence", m.ID+".json"))
 		}
 		fmt.Printf("  %d violating cases in total; by class: %v\n", unlistedCount, sum.ByClass)
 		return 1
